@@ -459,6 +459,7 @@ void World::on_frame(Client &cl, const Frame &f) {
 			presumed_drop = x.idx; x.closing = true; probe("faulty_peer_drop_inferred");
 			resolve_silent_decisions();
 			model.on_peer_gone(x.idx, false);
+			{ Input gi; gi.t = Input::GONE; gi.c = x.idx; gi.why = "drop of a faulty peer inferred"; shadow_log(gi); }
 			std::string why2;
 			if (try_match(cl, f, why2)) { update_replica(cl, f); return; }
 			presumed_detail = "(the frame is not explained by the daemon dropping faulty peer c" + std::to_string(x.idx) + " either) ";
